@@ -232,6 +232,19 @@ fn c12_check(s: &mut Sink, bytes: &[u8], pos: usize, eng: Eng, run_if_defined: b
             }
             (Ok(Err(_)), Ok(Err(_))) => {
                 s.outcome("compile-err", 1);
+                // a refused compilation must leave nothing behind: the smallest programs compile right
+                // after it, on the same thread
+                for probe in [&[isa::EXIT][..], &[isa::mov64i(0, 1), isa::EXIT][..]] {
+                    let pb = isa::enc(probe);
+                    let r = catch(|| {
+                        let mut vm = AnyVm::new_plain(VmKind::NoData, Some(&pb)).map_err(|e| format!("load: {e}"))?;
+                        vm.compile(eng)
+                    });
+                    if !matches!(r, Ok(Ok(()))) {
+                        s.violation(&format!("{}/{}/compile-after-a-refused-compilation", eng.name(), class()), format!("right after the compilation of this program was refused, compiling `{}` gave {:?}", isa::listing(probe).join(" | "), r), rp());
+                        break;
+                    }
+                }
                 continue;
             }
             (Ok(Ok(_)), Ok(Ok(_))) => s.outcome("compile-ok", 1),
